@@ -98,6 +98,84 @@ PROPS['C16'] = dict(
 )
 
 
+def exec_stream(tier):
+    n = {'quick': 6400, 'extended': 32000, 'thorough': 160000}[tier]
+    return dict(name='mock-runner', harness=['exec', str(n), '{seed}', '{shard}', '{nshards}'], driver='exec')
+
+
+def cli_stream(tier):
+    n = {'quick': 160, 'extended': 480, 'thorough': 3200}[tier]
+    return dict(name='cli', harness=['cli', str(n), '{seed}', '{shard}', '{nshards}'], driver='cli', timeout=3000)
+
+
+def validate_stream(tier):
+    return dict(name='validate', harness=['validate'], driver='validate', shards=1)
+
+
+EXEC_FORMAT = ('X <test;test;...: inline config ~-separated + st=<scripted runner status C<code>|T|S|D|U|E> sl=<sleep ms>>|<document config>|'
+               '<executor result: OK statuses | SKIP i | TIMEOUT T|I<i> statuses | FAILED i>|<what the mock runner saw per call: name/timeout ms/skip code/flags+config>|left=<entries left in temp dir>   '
+               'R <doc;doc: <m|c><role m|p|a>:<doc skip code>:<total_timeout ms>:<tests P pass,O wrong output,C<n> wrong code,E<n> expected code,S skip,T per-test timeout,G document timeout,D detached,K killed; i<n> inline skip code>>|cli_timeout|exit|json ok|<location/title=result,...>|marks=<execution order>|leftover   '
+               'V <status> <expected code> <output_stream> <stdout ok> <stderr ok> <no expectations>|<validate result>')
+
+PROPS['C05'] = dict(
+    family='line', needs_scrut_bin=True,
+    theorems=['C05_pass_iff', 'C05_wrong_code_wins', 'C05_no_exit_code_never_passes', 'C05_no_exit_code_never_succeeds'],
+    streams=lambda tier: [validate_stream(tier), exec_stream(tier), cli_stream(tier)],
+    spec_kinds=['SPEC:C05'], corr_kinds=['DIFF:validate', 'DIFF:results', 'DIFF:exec'],
+    case_format=EXEC_FORMAT,
+    rule='validate: all 2880 combinations of runner status x expected code x output_stream x stream contents through the real TestCase::validate (exhaustive over that table); '
+         'mock-runner: the real StatefulExecutor under scripted runner results (incl. Unknown = killed by a signal); cli: real `scrut test -r json` with real bash incl. `kill -9 $$`. '
+         'Non-trivial: at least two test cases; distinct by case text',
+    manifest=dict(text='Machine-checked theorems (Coq): the verdict is Success iff the runner status is the expected numeric code and the configured stream is accepted; a wrong code wins; a status without exit code never passes, nor does any later (padded) test of the document. Tied to /repo by the full status x code x stream table through the real TestCase::validate, by the real StatefulExecutor under a scripted runner, and by end-to-end runs of the real binary with real bash (signals included); the proved predicates are evaluated on what the implementation reports.',
+                  technique='Coq proof over the executor/verdict state machine + exhaustive table correspondence of TestCase::validate + mock-runner and CLI differential runs'),
+    exhaustive={'quick': False, 'thorough': False},
+    assumptions=['the matcher verdict on the selected stream is an input (out_ok); C01-C03 give it meaning',
+                 'bash delivers SIGKILL as no exit code (subprocess crate maps Signaled to Unknown): exercised end to end, not modelled'],
+)
+PROPS['C14'] = dict(
+    family='line', needs_scrut_bin=True,
+    theorems=['C14_effective_is_min', 'C14_effective_kind', 'C14_timeout_surfaces', 'C14_no_spurious', 'C14_default_limit'],
+    streams=lambda tier: [exec_stream(tier), cli_stream(tier)],
+    spec_kinds=['SPEC:C14'], corr_kinds=['DIFF:limit', 'DIFF:exec', 'DIFF:results'],
+    case_format=EXEC_FORMAT,
+    rule='mock-runner: per-test timeout absent/shorter/longer than the document limit x document limit absent(default)/0/set x position x scripted elapsed time; the runner records the timeout it is handed; '
+         'limits closer than 600 ms are counted inconclusive, never reported. cli: real sleeps (3 s) against 400 ms per-test and 0.8-1 s document limits (margin >= 3x). Non-trivial: >= 2 test cases',
+    manifest=dict(text='Machine-checked theorems (Coq): the limit a test runs under is the minimum of its own timeout and the remaining document limit and the reported kind is the smaller one; a runner timeout at test n yields validated results before n, a timeout failure at n, skipped after n and exit status 50; a timeout is only reported if the runner reported one; default limit pinned against regenerated constants. Tied to /repo by observing the timeout the real StatefulExecutor hands to a mock runner for generated configurations, and by wall-clock CLI runs. Partial: that the subprocess really is interrupted at the limit is runtime behaviour (subprocess::limit_time), exercised only by the CLI runs.',
+                  technique='Coq proof (minimum selection + executor state machine) + mock-runner observation of effective limits + wall-clock CLI runs',
+                  note='Partial for the wall-clock half: interruption of the child at the limit is runtime behaviour of the subprocess crate/kernel.'),
+    exhaustive={'quick': False, 'thorough': False},
+    assumptions=['Instant::now arithmetic: the remaining document time is total minus elapsed (saturating)',
+                 'subprocess::limit_time interrupts the child at the limit: exercised by CLI runs with >= 3x margin only'],
+)
+PROPS['C15'] = dict(
+    family='line', needs_scrut_bin=True,
+    theorems=['C15_skip_detected', 'C15_skip_all', 'C15_only_then', 'C15_skip_has_cause', 'C15_default_code'],
+    streams=lambda tier: [exec_stream(tier), cli_stream(tier)],
+    spec_kinds=['SPEC:C15'], corr_kinds=['DIFF:skipcode', 'DIFF:exec', 'DIFF:results'],
+    case_format=EXEC_FORMAT,
+    rule='mock-runner: skip codes set per test / per document / default, any position, expected code equal to the skip code or not; the effective skip code the runner sees is compared too. '
+         'cli: Markdown (per-process) and Cram (single script, divider exit codes) documents with custom and default codes. Non-trivial: >= 2 test cases',
+    manifest=dict(text='Machine-checked theorems (Coq): a reached test that ends in its effective skip code makes the executor report a skip; then every test of the document is reported skipped and none failed; a skipped result arises only from a skip or after a timeout; a skip always has a cause. Default code pinned against regenerated constants. Tied to /repo by the real StatefulExecutor under a scripted runner (effective codes observed) and by CLI runs through both executors.',
+                  technique='Coq proof over the executor state machine (both executors) + mock-runner and CLI differential runs'),
+    exhaustive={'quick': False, 'thorough': False},
+    assumptions=['Cram: divider parsing is modelled at the level of per-test exit codes (C13 covers the byte level)'],
+)
+PROPS['C20'] = dict(
+    family='line', needs_scrut_bin=True,
+    theorems=['C20_one_slot_per_test', 'C20_no_result_only_detached', 'C20_counts_add_up', 'C20_exit_status', 'C20_all_documents_reported'],
+    streams=lambda tier: [cli_stream(tier), exec_stream(tier)],
+    spec_kinds=['SPEC:C20'], corr_kinds=['DIFF:exit', 'DIFF:results', 'DIFF:marks', 'DIFF:exec'],
+    case_format=EXEC_FORMAT,
+    rule='cli: 1-3 documents (Markdown and Cram mixed) plus prepend/append documents given on the command line; tests pass, fail on output, fail on code, expect a code, skip, time out, detach or are killed; '
+         'every test appends a marker to a file, so execution order and multiplicity are observed, results come from -r json, the exit status from the process. Non-trivial: >= 2 test cases in the run',
+    manifest=dict(text='Machine-checked theorems (Coq): one result slot per test case handed to the executor, empty only for a detached test; succeeded + failed + skipped = reported; exit status is 1 iff a document could not be executed, else 50 iff some test failed or timed out, else 0; without errors every document is reported in order. Tied to /repo by end-to-end runs of the real binary with marker files proving order and multiplicity (prepend ++ own ++ append), results parsed from -r json and the process exit status.',
+                  technique='Coq proof over the aggregation model (executor results -> outcomes -> exit status) + end-to-end differential runs of the real CLI with marker files'),
+    exhaustive={'quick': False, 'thorough': False},
+    assumptions=['unreadable/unparsable documents and an unusable shell (exit status 1) are exercised by dedicated end-to-end cases only in the thorough tier'],
+)
+PROPS['C16']['streams'] = lambda tier: config_streams(tier) + [exec_stream(tier)]
+
+
 def run_one(prop, inp, ctx):
     """re-run one case through the implementation and the model; returns CASE lines"""
     cfg = PROPS[prop]
@@ -108,7 +186,8 @@ def run_one(prop, inp, ctx):
         return [l for l in out.split('\n') if l.startswith('CASE')], out
     if fam == 'line':
         # generic: the case line carries the implementation's result; re-evaluate the model/oracle on it
-        drv = cfg['streams']('quick')[0]['driver']
+        tag = inp[:1]
+        drv = {'X': 'exec', 'R': 'cli', 'V': 'validate', 'E': 'config', 'A': 'config', 'D': 'config', 'P': 'config'}.get(tag, cfg['streams']('quick')[0]['driver'])
         rc, out = ctx['sh']([ctx['SVD'], drv], inp=(inp + '\n').encode())
         return [l for l in out.split('\n') if l.startswith('CASE')], out
     return [], ''
